@@ -179,8 +179,18 @@ func (b *ByteBuffer) Saved() []byte {
 	return b.data[:b.si]
 }
 
-// SavedSlot ...
+// validSlot reports whether the slot lies inside the save area.
+func (b *ByteBuffer) validSlot(slot Slot) bool {
+	return slot.Index >= 0 && slot.Length >= 0 && slot.Length <= b.si &&
+		slot.Index <= b.si-slot.Length
+}
+
+// SavedSlot returns the saved bytes referred to by the slot, or nil if the
+// slot does not lie inside the save area.
 func (b *ByteBuffer) SavedSlot(slot Slot) []byte {
+	if !b.validSlot(slot) {
+		return nil
+	}
 	return b.data[slot.Index : slot.Index+slot.Length]
 }
 
@@ -188,7 +198,7 @@ func (b *ByteBuffer) SavedSlot(slot Slot) []byte {
 //
 // This call reduces the save area by slot.Length. Returns slot.Length.
 func (b *ByteBuffer) Discard(slot Slot) (discarded int) {
-	if slot.Length <= 0 {
+	if slot.Length <= 0 || !b.validSlot(slot) {
 		return 0
 	}
 
